@@ -14,7 +14,7 @@ RULE = ("cases: (graph, trace, times, configuration, metric); graphs may contain
 ASSUMPTIONS = ["finite map (every neighbour label is a node), non-empty trace, finite coordinates, |lat| <= 60",
                "labels ints or short strings without '-'/'_'", "InMemMap without index; SqliteMap for a fifth of the integer-labelled cases"]
 TOLERANCES = {"pairs_vs_triples": "exact equality of index, path keys, states and log-probability"}
-BUDGET = {"quick": {"shards": 8, "examples": 500}, "thorough": {"shards": 16, "examples": 7000}}
+BUDGET = {"quick": {"shards": 8, "examples": 800}, "thorough": {"shards": 16, "examples": 7000}}
 FUZZ = {"thorough": {"runs": 15000, "seed_inputs": 16, "max_len": 4096,
                      "include": ("leuvenmapmatching.matcher", "leuvenmapmatching.util", "leuvenmapmatching.map")}}
 
